@@ -475,3 +475,278 @@ Proof.
   unfold ast_of_select. rewrite <- (select_norm_ast None s).
   apply parse_render_select; try assumption. right. exact Hbare.
 Qed.
+
+(* ------------------------------------------------------------------------------------------------ *)
+(* query expressions, WITH, INSERT / UPDATE / DELETE *)
+Lemma render_query_base : forall q b, render_query sr0 b q = render_query sr0 0 q.
+Proof.
+  induction q as [s|l IH op all r]; intros b; cbn [render_query].
+  - reflexivity.
+  - rewrite (IH b). reflexivity.
+Qed.
+
+Lemma setop_tok_ok : forall op, setop_token (setop_str op) = Some (setop_tok op).
+Proof. destruct op; reflexivity. Qed.
+
+Lemma query_okp : forall q w wt, query_ok q = true -> query_p q = true ->
+    match w with None => Some [] | Some w' => print_with print_ok w' end = Some wt ->
+    print_stmt print_ok (ast_of_query_w w q) = Some (wt ++ render_query sr0 0 (norm_query q)).
+Proof.
+  induction q as [s|l IH op all r]; intros w wt Hok Hp Hw; cbn [query_ok query_p ast_of_query_w norm_query render_query] in *.
+  - cbn [print_stmt]. apply select_okp; assumption.
+  - apply andb_prop in Hok. destruct Hok as [Hok Hpl]. apply andb_prop in Hok. destruct Hok as [Hok Hr]. apply andb_prop in Hok. destruct Hok as [Hl _].
+    apply andb_prop in Hp. destruct Hp as [Hpl' Hpr].
+    cbn [print_stmt]. rewrite (IH w wt Hl Hpl' Hw). cbn [ob]. rewrite setop_tok_ok. cbn [ob print_stmt]. unfold ast_of_select.
+    rewrite (select_okp r None [] Hr Hpr eq_refl). cbn [ob app].
+    rewrite <- !app_assoc. reflexivity.
+Qed.
+
+Lemma cte_okp : forall c, cte_ok c = true -> cte_p c = true ->
+    print_cte print_ok (ast_of_cte c) = Some (cte_toks sr0 0 (norm_cte c)).
+Proof.
+  intros [n cols mat body] Hok Hp. unfold cte_ok, cte_p in *. cbn [c_name c_cols c_mat c_body] in *.
+  apply andb_prop in Hp. destruct Hp as [Hp Hq]. apply andb_prop in Hp. destruct Hp as [Hn Hc].
+  unfold ast_of_cte, norm_cte, cte_toks. cbn [c_name c_cols c_mat c_body print_cte].
+  unfold ast_of_query. rewrite (query_okp body None [] Hok Hq eq_refl). cbn [ob app].
+  rewrite (pw_ident n Hn). unfold cols_toks. rewrite (names_tokens_words cols Hc).
+  destruct cols, mat as [[|]|]; reflexivity.
+Qed.
+
+Lemma ctes_toks0 : forall l b, ctes_toks sr0 b l = map (cte_toks sr0 0) l.
+Proof.
+  induction l as [|c l IH]; intros b; cbn [ctes_toks map]; [reflexivity|]. rewrite IH. f_equal.
+  unfold cte_toks. rewrite render_query_base. reflexivity.
+Qed.
+
+Lemma with_okp : forall w, with_ok w = true -> with_p w = true ->
+    match ast_of_with w with None => Some [] | Some w' => print_with print_ok w' end = Some (with_toks sr0 (norm_with w)).
+Proof.
+  intros [[rc ctes]|] Hok Hp; cbn [ast_of_with norm_with option_map with_toks]; [|reflexivity].
+  unfold with_ok, with_p in *. cbn [w_rec w_ctes] in *. apply andb_prop in Hok. destruct Hok as [_ Hok].
+  cbn [print_with]. rewrite map_map.
+  rewrite (all_some_map (fun x => print_cte print_ok (ast_of_cte x)) (fun x => cte_toks sr0 0 (norm_cte x)) ctes)
+    by (intros x Hx; apply cte_okp; eapply forallb_In; eassumption).
+  cbn [ob]. rewrite ctes_toks0, map_map. reflexivity.
+Qed.
+
+Lemma assigns_okp : forall c i sets, forallb (fun ce : string * mexpr => ref_expr (snd ce)) sets = true -> sets_p sets = true ->
+    print_assigns print_ok (ast_of_sets sets) = Some (sep_by [tComma] (assign_toks sr0 c i (norm_sets sets))).
+Proof.
+  intros c i sets Hr Hp. unfold print_assigns, ast_of_sets, norm_sets. rewrite assign_toks0, !map_map.
+  rewrite (all_some_map (fun x : string * mexpr => print_assign print_ok (GIdent (fst x) "", ast_of (snd x)))
+             (fun x => Tk TyIdent (fst x) :: Tk TyEq "=" :: render 0 no_parens (nm (snd x))) sets).
+  - reflexivity.
+  - intros [n e] Hx. cbn [fst snd]. unfold print_assign. cbn [fst snd print_expr String.eqb].
+    pose proof (forallb_In _ _ _ Hr Hx) as H1. pose proof (forallb_In _ _ _ Hp Hx) as H2. cbn [fst snd] in H1, H2.
+    apply andb_prop in H2. destruct H2 as [Hn He]. rewrite (pw_ident n Hn). cbn [ob]. rewrite (expr_ok e H1 He). reflexivity.
+Qed.
+
+Lemma returning_okp : forall l, forallb ref_expr l = true -> forallb pe l = true ->
+    print_returning print_ok (map ast_of l) = Some (returning_toks sr0 (map nm l)).
+Proof.
+  intros l Hr Hp. unfold print_returning, returning_toks. rewrite map_map, exprs_toks0.
+  rewrite (list_opt_map [Tk TyReturning "RETURNING"] (fun x => print_expr print_ok (ast_of x)) (fun x => render 0 no_parens (nm x)) l)
+    by (intros x Hx; apply expr_ok; eapply forallb_In; eassumption).
+  rewrite map_map. reflexivity.
+Qed.
+
+Lemma conflict_okp : forall cf, optb conflict_ok cf = true -> optb conflict_p cf = true ->
+    print_conflict print_ok (option_map ast_of_conflict cf) = Some (conflict_toks sr0 (option_map norm_conflict cf)).
+Proof.
+  intros [[tg act]|] Hok Hp; cbn [optb option_map print_conflict conflict_toks] in *; [|reflexivity].
+  unfold conflict_ok, conflict_p in *. cbn [cf_target cf_action] in *.
+  apply andb_prop in Hok, Hp. destruct Hok as [Hto Hao], Hp as [Htp Hap].
+  unfold ast_of_conflict, norm_conflict. cbn [cf_target cf_action].
+  assert (Et : match (match tg with CtCols cols => map (fun c => GIdent c "") cols | _ => [] end) with
+               | [] => Some []
+               | _ => ob (print_exprs print_ok (match tg with CtCols cols => map (fun c => GIdent c "") cols | _ => [] end)) (fun ts => Some (tLP :: ts ++ [tRP]))
+               end = Some (match tg with CtCols cols => tLP :: idents_toks cols ++ [tRP] | _ => [] end)).
+  { destruct tg as [|cols|n]; try reflexivity. destruct cols as [|c cols]; [discriminate Hto|].
+    set (l := c :: cols) in *. change (map (fun c0 => GIdent c0 "") l) with (GIdent c "" :: map (fun c0 => GIdent c0 "") cols).
+    cbv iota. change (GIdent c "" :: map (fun c0 => GIdent c0 "") cols) with (map (fun c0 => GIdent c0 "") l).
+    rewrite (ident_exprs l Htp). reflexivity. }
+  rewrite Et. cbn [ob].
+  assert (Ec : (if String.eqb (match tg with CtConstraint n => n | _ => "" end) "" then []
+                else Tk TyOn "ON" :: Tk TyConstraint "CONSTRAINT" :: ident_tokens print_ok (match tg with CtConstraint n => n | _ => "" end))
+               = match tg with CtConstraint n => [Tk TyOn "ON"; Tk TyConstraint "CONSTRAINT"; Tk TyIdent n] | _ => [] end).
+  { destruct tg as [|cols|n]; try reflexivity. destruct (pw_facts n Htp) as (He & _). rewrite He, (pw_ident n Htp). reflexivity. }
+  rewrite Ec.
+  destruct act as [|sets wh].
+  - cbn [ob]. destruct tg; reflexivity.
+  - apply andb_prop in Hao. destruct Hao as [Hao Hwo]. apply andb_prop in Hao. destruct Hao as [Hlen Hso].
+    apply andb_prop in Hap. destruct Hap as [Hsp Hwp].
+    assert (Hne : ast_of_sets sets <> []) by (destruct sets; [discriminate Hlen|discriminate]).
+    destruct (ast_of_sets sets) eqn:E; [contradiction|]. rewrite <- E.
+    rewrite (assigns_okp cl_cset 0 sets Hso Hsp). cbn [ob].
+    rewrite (opt_expr_okp [Tk TyWhere "WHERE"] wh Hwo Hwp). cbn [ob].
+    unfold where_toks_at. destruct tg; cbn [app]; rewrite <- ?app_assoc; reflexivity.
+Qed.
+
+Lemma rows_okp : forall rows, forallb row_ok rows = true -> forallb (forallb pe) rows = true ->
+    print_rows print_ok (map (map ast_of) rows) = Some (sep_by [tComma] (rows_toks sr0 0 (map (map nm) rows))).
+Proof.
+  intros rows Hok Hp. unfold print_rows. rewrite rows_toks0, !map_map.
+  rewrite (all_some_map (fun row => ob (print_exprs print_ok (map ast_of row)) (fun ts => Some (tLP :: ts ++ [tRP])))
+             (fun row => tLP :: sep_by [tComma] (map (render 0 no_parens) (map nm row)) ++ [tRP]) rows).
+  - reflexivity.
+  - intros row Hx. pose proof (forallb_In _ _ _ Hok Hx) as H1. pose proof (forallb_In _ _ _ Hp Hx) as H2.
+    unfold row_ok in H1. apply andb_prop in H1. destruct H1 as [_ H1]. rewrite (exprs_ok row H1 H2). reflexivity.
+Qed.
+
+Ltac fin := rewrite ?shift_sr0; first [reflexivity | rewrite <- !app_assoc; cbn [app]; rewrite <- ?app_assoc; reflexivity].
+
+Theorem print_stmt_is_render : forall s, stmt_ok s = true -> stmt_p s = true ->
+    print_stmt print_ok (ast_of_stmt s) = Some (render_stmt sr0 (norm_stmt s)).
+Proof.
+  intros [w b] Hok Hp. unfold stmt_ok, stmt_p in *. cbn [st_with st_body] in *.
+  apply andb_prop in Hok, Hp. destruct Hok as [Hwo Hbo], Hp as [Hwp Hbp].
+  pose proof (with_okp w Hwo Hwp) as Hw.
+  unfold ast_of_stmt, render_stmt, norm_stmt. cbn [st_with st_body].
+  destruct b as [q|t cols src cf ret|t sets wh ret|t wh ret]; cbn [body_ok body_p norm_body ast_of_stmt_w RefStmt.render_body] in *.
+  - rewrite (query_okp q _ _ Hbo Hbp Hw). rewrite (render_query_base _ (with_size _)). reflexivity.
+  - repeat (apply andb_prop in Hbo; let H := fresh "Ho" in destruct Hbo as [Hbo H]).
+    repeat (apply andb_prop in Hbp; let H := fresh "Hq" in destruct Hbp as [Hbp H]).
+    unfold path_ok in Hbo. assert (Hne : t <> []) by (destruct t; [discriminate Hbo|discriminate]).
+    cbn [print_stmt]. rewrite Hw. cbn [ob].
+    assert (Ecols : match map (fun c => GIdent c "") cols with [] => Some []
+                    | _ => ob (print_exprs print_ok (map (fun c => GIdent c "") cols)) (fun ts => Some (tLP :: ts ++ [tRP])) end
+                    = Some (cols_toks cols)).
+    { destruct cols as [|c cols']; [reflexivity|]. set (l := c :: cols') in *.
+      change (map (fun c0 => GIdent c0 "") l) with (GIdent c "" :: map (fun c0 => GIdent c0 "") cols'). cbv iota.
+      change (GIdent c "" :: map (fun c0 => GIdent c0 "") cols') with (map (fun c0 => GIdent c0 "") l).
+      rewrite (ident_exprs l Hq2). reflexivity. }
+    rewrite Ecols. cbn [ob].
+    rewrite (name_tokens_path false t Hne Hbp).
+    destruct src as [rows|q].
+    + apply andb_prop in Ho. destruct Ho as [Hlen Hrows].
+      assert (Hr : map (map ast_of) rows <> []) by (destruct rows; [discriminate Hlen|discriminate]).
+      destruct (map (map ast_of) rows) eqn:E; [contradiction|]. rewrite <- E.
+      rewrite (rows_okp rows Hrows Hq1). cbn [ob].
+      rewrite (conflict_okp cf Ho0 Hq0). cbn [ob]. rewrite (returning_okp ret Ho1 Hq). cbn [ob].
+      fin.
+    + unfold ast_of_query. rewrite (query_okp q None [] Ho Hq1 eq_refl). cbn [ob app].
+      rewrite (conflict_okp cf Ho0 Hq0). cbn [ob]. rewrite (returning_okp ret Ho1 Hq). cbn [ob].
+      rewrite (render_query_base _ (with_size _)). fin.
+  - repeat (apply andb_prop in Hbo; let H := fresh "Ho" in destruct Hbo as [Hbo H]).
+    repeat (apply andb_prop in Hbp; let H := fresh "Hq" in destruct Hbp as [Hbp H]).
+    unfold path_ok in Hbo. assert (Hne : t <> []) by (destruct t; [discriminate Hbo|discriminate]).
+    cbn [print_stmt map list_opt String.eqb]. rewrite Hw. cbn [ob].
+    rewrite (assigns_okp cl_set 0 sets Ho1 Hq1). cbn [ob].
+    rewrite (opt_expr_okp [Tk TyWhere "WHERE"] wh Ho0 Hq0). cbn [ob]. rewrite (returning_okp ret Ho Hq). cbn [ob].
+    rewrite (name_tokens_path false t Hne Hbp). unfold sets_toks, where_toks.
+    fin.
+  - repeat (apply andb_prop in Hbo; let H := fresh "Ho" in destruct Hbo as [Hbo H]).
+    repeat (apply andb_prop in Hbp; let H := fresh "Hq" in destruct Hbp as [Hbp H]).
+    unfold path_ok in Hbo. assert (Hne : t <> []) by (destruct t; [discriminate Hbo|discriminate]).
+    cbn [print_stmt map list_opt String.eqb]. rewrite Hw. cbn [ob].
+    rewrite (opt_expr_okp [Tk TyWhere "WHERE"] wh Ho0 Hq0). cbn [ob]. rewrite (returning_okp ret Ho Hq). cbn [ob].
+    rewrite (name_tokens_path false t Hne Hbp). unfold where_toks.
+    fin.
+Qed.
+
+(* ------------------------------------------------------------------------------------------------ *)
+(* the normalised statement has the same prescribed tree and stays in the reference surface *)
+Lemma query_norm_ast : forall q w, ast_of_query_w w (norm_query q) = ast_of_query_w w q.
+Proof.
+  induction q as [s|l IH op all r]; intros w; cbn [norm_query ast_of_query_w].
+  - rewrite select_norm_ast. reflexivity.
+  - rewrite IH. unfold ast_of_select. rewrite select_norm_ast. reflexivity.
+Qed.
+Lemma with_norm_ast : forall w, ast_of_with (norm_with w) = ast_of_with w.
+Proof.
+  intros [[rc ctes]|]; cbn [norm_with ast_of_with option_map w_rec w_ctes]; [|reflexivity].
+  rewrite map_map. f_equal. f_equal. apply map_ext. intros [n cols mat body]. unfold ast_of_cte, norm_cte. cbn [c_name c_cols c_mat c_body].
+  unfold ast_of_query. rewrite query_norm_ast. reflexivity.
+Qed.
+Lemma sets_norm_ast : forall l, ast_of_sets (norm_sets l) = ast_of_sets l.
+Proof. intros l. unfold ast_of_sets, norm_sets. rewrite map_map. apply map_ext. intros [n e]. cbn [fst snd]. unfold nm. rewrite ast_of_norm. reflexivity. Qed.
+Lemma conflict_norm_ast : forall cf, option_map ast_of_conflict (option_map norm_conflict cf) = option_map ast_of_conflict cf.
+Proof.
+  intros [[tg act]|]; cbn [option_map]; [|reflexivity]. unfold ast_of_conflict, norm_conflict. cbn [cf_target cf_action].
+  destruct act as [|sets wh]; [reflexivity|]. rewrite sets_norm_ast, opt_nm_ast. reflexivity.
+Qed.
+Lemma stmt_norm_ast : forall s, ast_of_stmt (norm_stmt s) = ast_of_stmt s.
+Proof.
+  intros [w b]. unfold ast_of_stmt, norm_stmt. cbn [st_with st_body]. rewrite with_norm_ast.
+  destruct b as [q|t cols src cf ret|t sets wh ret|t wh ret]; cbn [norm_body ast_of_stmt_w].
+  - apply query_norm_ast.
+  - rewrite conflict_norm_ast, map_nm_ast. destruct src as [rows|q].
+    + rewrite map_map. rewrite (map_ext (fun x => map ast_of (map nm x)) (map ast_of) map_nm_ast). reflexivity.
+    + unfold ast_of_query. rewrite query_norm_ast. reflexivity.
+  - rewrite sets_norm_ast, opt_nm_ast, map_nm_ast. reflexivity.
+  - rewrite opt_nm_ast, map_nm_ast. reflexivity.
+Qed.
+
+Lemma plain_norm : forall s, plain_operand s = true -> plain_operand (norm_select s) = true.
+Proof.
+  intros s H. unfold plain_operand, norm_select in *.
+  cbn [s_order s_limit s_offset s_fetch]. destruct (s_order s); [|discriminate H]. destruct (s_limit s), (s_offset s), (s_fetch s); try discriminate H. reflexivity.
+Qed.
+Lemma operands_norm : forall q, operands_plain q = true -> operands_plain (norm_query q) = true.
+Proof.
+  induction q as [s|l IH op all r]; intros H; cbn [operands_plain norm_query] in *; [apply plain_norm; exact H|].
+  apply andb_prop in H. destruct H as [H1 H2]. rewrite (IH H1), (plain_norm r H2). reflexivity.
+Qed.
+Lemma query_norm_ok : forall q, query_ok q = true -> query_ok (norm_query q) = true /\ query_bare_alias_free (norm_query q) = true.
+Proof.
+  induction q as [s|l IH op all r]; intros H; cbn [query_ok norm_query query_bare_alias_free] in *; [apply select_norm_ok; exact H|].
+  apply andb_prop in H. destruct H as [H Hp]. apply andb_prop in H. destruct H as [H Hr]. apply andb_prop in H. destruct H as [Hl Hlp].
+  destruct (IH Hl) as [I1 I2]. destruct (select_norm_ok r Hr) as [R1 R2].
+  rewrite I1, I2, R1, R2, (operands_norm l Hlp), (plain_norm r Hp). split; reflexivity.
+Qed.
+Lemma sets_norm_ok : forall l, forallb (fun ce : string * mexpr => ref_expr (snd ce)) l = true ->
+    forallb (fun ce : string * mexpr => ref_expr (snd ce)) (norm_sets l) = true.
+Proof. intros l H. unfold norm_sets. rewrite forallb_map. eapply forallb_impl; [|exact H]. intros [n e] Hx. cbn [snd] in *. apply ref_norm. exact Hx. Qed.
+
+Lemma stmt_norm_ok : forall s, stmt_ok s = true -> stmt_ok (norm_stmt s) = true /\ stmt_bare_alias_free (norm_stmt s) = true.
+Proof.
+  intros [w b] H. unfold stmt_ok, stmt_bare_alias_free, norm_stmt in *. cbn [st_with st_body] in *.
+  apply andb_prop in H. destruct H as [Hw Hb].
+  assert (Ew : with_ok (norm_with w) = true
+               /\ match norm_with w with None => true | Some w' => forallb (fun c => query_bare_alias_free (c_body c)) (w_ctes w') end = true).
+  { destruct w as [[rc ctes]|]; cbn [norm_with option_map with_ok w_ctes] in *; [|split; reflexivity].
+    apply andb_prop in Hw. destruct Hw as [Hl Hc]. rewrite map_length, Hl, !forallb_map. cbn [andb]. split.
+    - eapply forallb_impl; [|exact Hc]. intros c Hx. unfold cte_ok, norm_cte in *. cbn [c_body]. apply (query_norm_ok _ Hx).
+    - eapply forallb_impl; [|exact Hc]. intros c Hx. unfold cte_ok, norm_cte in *. cbn [c_body]. apply (query_norm_ok _ Hx). }
+  destruct Ew as [Ew1 Ew2]. rewrite Ew1, Ew2. cbn [andb].
+  destruct b as [q|t cols src cf ret|t sets wh ret|t wh ret]; cbn [body_ok norm_body] in *.
+  - apply query_norm_ok. exact Hb.
+  - repeat (apply andb_prop in Hb; let H := fresh "Ho" in destruct Hb as [Hb H]).
+    rewrite Hb, (refs_nm ret Ho1). cbn [andb].
+    assert (Ec : optb conflict_ok (option_map norm_conflict cf) = true).
+    { destruct cf as [[tg act]|]; cbn [optb option_map] in *; [|reflexivity]. unfold conflict_ok, norm_conflict in *. cbn [cf_target cf_action] in *.
+      apply andb_prop in Ho0. destruct Ho0 as [Ht Ha]. rewrite Ht. cbn [andb]. destruct act as [|sets wh]; [reflexivity|].
+      apply andb_prop in Ha. destruct Ha as [Ha Hwh]. apply andb_prop in Ha. destruct Ha as [Hl Hs].
+      unfold norm_sets at 1. rewrite map_length, Hl, (sets_norm_ok sets Hs), (optb_nm wh Hwh). reflexivity. }
+    rewrite Ec. cbn [andb]. destruct src as [rows|q].
+    + apply andb_prop in Ho. destruct Ho as [Hl Hr]. rewrite map_length, Hl. cbn [andb]. split; [|reflexivity].
+      rewrite forallb_map. eapply forallb_impl; [|exact Hr]. intros row Hx. unfold row_ok in *. apply andb_prop in Hx. destruct Hx as [H1 H2].
+      rewrite map_length, H1, (refs_nm row H2). reflexivity.
+    + apply query_norm_ok. exact Ho.
+  - repeat (apply andb_prop in Hb; let H := fresh "Ho" in destruct Hb as [Hb H]).
+    unfold norm_sets at 1. rewrite Hb, map_length, Ho2, (sets_norm_ok sets Ho1), (optb_nm wh Ho0), (refs_nm ret Ho). split; reflexivity.
+  - repeat (apply andb_prop in Hb; let H := fresh "Ho" in destruct Hb as [Hb H]).
+    rewrite Hb, (optb_nm wh Ho0), (refs_nm ret Ho). split; reflexivity.
+Qed.
+
+(* the statement round trip *)
+Theorem print_parse_stmt : forall md sf fuel s stop d,
+    stmt_ok s = true -> stmt_p s = true -> stmt_follow stop ->
+    d + stmt_depth sr0 (norm_stmt s) <= md ->
+    exists ts, print_stmt print_ok (ast_of_stmt s) = Some ts
+               /\ (length (ts ++ stop) <= fuel ->
+                   parse_statement md sf (parse_expression md no_defects fuel) d (ts ++ stop) = Val (ast_of_stmt s, stop)).
+Proof.
+  intros md sf fuel s stop d Hok Hp Hst Hdep. eexists. split; [apply print_stmt_is_render; assumption|].
+  intros Hlen. destruct (stmt_norm_ok s Hok) as [Hok' Hbare].
+  rewrite <- (stmt_norm_ast s).
+  apply parse_render_stmt; try assumption. right. exact Hbare.
+Qed.
+
+(* non-vacuity *)
+Example ex_select_p : select_p ex_select = true. Proof. reflexivity. Qed.
+Example ex_stmts_p : stmt_p ex_stmt_with = true /\ stmt_p ex_stmt_insert = true. Proof. split; reflexivity. Qed.
+Example ex_stmt_print_parse :
+  exists ts, print_stmt print_ok (ast_of_stmt ex_stmt_insert) = Some ts
+             /\ parse_statement_top tree_flags (ts ++ [Tk TyEOF ""]) = Val (ast_of_stmt ex_stmt_insert, [Tk TyEOF ""]).
+Proof. eexists. split; [vm_compute; reflexivity|vm_compute; reflexivity]. Qed.
